@@ -77,6 +77,10 @@ class Fault(Exception):
     pass
 
 
+class Interrupt(KeyboardInterrupt):
+    """a run that is interrupted (Ctrl-C in a notebook): a failing run that is not an `Exception`"""
+
+
 class _Unsaveable:
     def __reduce__(self):
         raise TypeError('this object cannot be saved')
@@ -264,6 +268,8 @@ class World:
             task.save_to_run_info({'tcv': key, 'gen': gen, 'seq': 0})
         if fault == 'raise':
             raise Fault(f'{key} raise')
+        if fault == 'interrupt':
+            raise Interrupt(f'{key} interrupt')
         style = t.get('run', 'registry')
         params = {}
         for p in t.get('params', []):
@@ -296,6 +302,9 @@ class World:
                     inputs[label] = {'default': jsonable(i.get('default'))}
         term = {'t': key, 'p': params, 'i': inputs}
         payload = {'term': term, 'gen': gen}
+        if self.desc.get('_shrinking') and kind not in ('generator', 'generator_lazy', 'inmemory', 'inmemory_empty'):
+            # every later run of one computation returns a SHORTER value: leftovers of an earlier attempt that are not truncated show
+            payload['pad'] = 'x' * (90, 40, 0)[min(gen, 2)]
         task.logger.info(f'tcv {key} gen{gen} end')
         task.save_to_run_info({'tcv': key, 'gen': gen, 'seq': 1})
         if fault == 'raise_late':
@@ -478,6 +487,8 @@ class World:
             p = {'term': {'empty': kind}, 'gen': 0}
         else:
             raise ValueError(kind)
+        if isinstance(p, dict) and 'pad' in p and isinstance(p['pad'], str) and set(p['pad']) <= {'x'}:
+            p = {k: v for k, v in p.items() if k != 'pad'}
         if not (isinstance(p, dict) and set(p) == {'term', 'gen'}):
             raise ValueError(f'payload malformed: {p!r}')
         return p
